@@ -66,6 +66,8 @@ KEY_FAMILIES = {
         'int_str_ukey': [3, 'a', U(1)],
     },
 }
+KEY_FAMILIES[4] = {'int_ukey': [3, 1, 2, U(1)], 'str_int': ['b', 2, 'a', 1]}
+KEY_FAMILIES[5] = {'mixed_unsortable': [3, 1, 'a', U(2), U(1)], 'int_str_none': [2, 'b', None, 1, 'a']}
 # canonical non-sorted insertion order used by the core stratum
 CORE_KEYS = {0: [], 1: ['b'], 2: ['b', 'a'], 3: ['c', 'a', 'b']}
 
@@ -291,7 +293,7 @@ def variants(kind, arity, full=True):  # noqa: C901
         if kind == 'ddict':
             facs = ['none', 'int', 'list'] if full else ['list']
             out = [dict(v, factory=facs[i % len(facs)]) for i, v in enumerate(out)]
-        if full and kind != 'cd' and kind != 'dictsub':
+        if full and kind != 'cd' and kind != 'dictsub' and 'str' in fams:
             fam = fams['str']
             rev = list(reversed(fam))
             out.append({'keys': rev, 'hist': 'reinsert'})
@@ -363,6 +365,8 @@ def cell_singles(full=True):
     out = []
     for kind in [*ALL_NODE_KINDS, *LEAFLIKE_KINDS]:
         arities = [FIXED_ARITY[kind]] if kind in FIXED_ARITY else [0, 1, 2, 3]
+        if kind in DICT_KINDS:
+            arities = [0, 1, 2, 3, 4, 5]  # larger key sets: every insertion permutation
         for a in arities:
             for v in variants(kind, a, full):
                 out.append(node_of(kind, v, a))
